@@ -5,7 +5,8 @@
 // truncation down to an empty file, torn/dropped/duplicated blocks, bit flips, one zeroed byte).
 // Oracles: the world terminates (no deadlock, no abort); every rank ends like the parser does on the text of the file
 // (reference: the same bytes parsed from a plain std::istringstream in a one-task world): parsed object - then the
-// re-written output is byte-identical on all ranks and to the reference - or a documented exception of the same family;
+// re-written output is byte-identical on all ranks and to the reference - or a documented exception (the family and the
+// message are not compared: both families are documented outcomes);
 // input that is invalid by construction is rejected by every rank; the untouched file is accepted by every rank.
 #include "runner.hpp"
 #include "simmpi/simmpi.hpp"
@@ -213,7 +214,9 @@ std::string harness_run()
   sim::spawn("ref", [&]() {
     for(int k = 0; k < nfaults; ++k)
     {
-      switch(sim::decide(sim::PICK, 7, "fault_kind") )
+      // weights: TRUNCATE_AT 3, TRUNCATE_TO_EMPTY 1, TORN_BLOCK 2, DROP_BLOCK 2, DUP_BLOCK 2, BITFLIP 3, NUL_BYTE 3
+      static const int kinds[16] = {0, 0, 0, 1, 2, 2, 3, 3, 4, 4, 5, 5, 5, 6, 6, 6};
+      switch(kinds[sim::decide(sim::PICK, 16, "fault_kind")])
       {
       case 0: simfs::truncate_at(bytes, flog, int(simfs::pick(2, "trunc_bias"))); break;
       case 1: if(!bytes.empty()) { bytes.clear(); flog.ops += "TRUNCATE_TO_EMPTY "; flog.must_reject = !ini; flog.why += "nothing of the file reached the disk; "; sim::count_fault("TRUNCATE_TO_EMPTY"); } break;
@@ -259,15 +262,17 @@ std::string harness_run()
     const Result& my = res[size_t(r)];
     const std::string who = "rank " + std::to_string(r) + " of " + std::to_string(n) + ", file " + fe.name + " after " + ops;
     if(my.outcome < 0) sim::fail("DIST_PARSE_NO_OUTCOME", who + ": the rank ended without an outcome");
-    if(my.outcome != ref.outcome)
+    // an empty file: whether the file layer hands an empty text to the parser or refuses the file with a documented
+    // exception of its own is its business - the ranks have to agree, and an empty mesh file has to be rejected
+    const bool compare_with_ref = !bytes.empty();
+    if(compare_with_ref && my.outcome != ref.outcome)
       sim::fail("DIST_PARSE_DIFFERS", who + ": " + (my.outcome == 0 ? std::string("parsed an object") : "rejected (" + my.family + ": " + shorten(my.what) + ")") +
         ", but the parser on the text of the file " + (ref.outcome == 0 ? std::string("parses an object") : "rejects it (" + ref.family + ": " + shorten(ref.what) + ")"));
-    if(my.outcome == 0 && my.rewritten != ref.rewritten) sim::fail("DIST_PARSE_DIFFERS", who + ": the parsed object written again differs from what the parser makes of the text of the file");
-    if(my.outcome == 1 && my.family != ref.family) sim::fail("DIST_PARSE_DIFFERS", who + ": rejected with " + my.family + ", the parser on the text of the file rejects with " + ref.family);
+    if(compare_with_ref && my.outcome == 0 && my.rewritten != ref.rewritten) sim::fail("DIST_PARSE_DIFFERS", who + ": the parsed object written again differs from what the parser makes of the text of the file");
     if(my.outcome != res[0].outcome || my.rewritten != res[0].rewritten) sim::fail("DIST_PARSE_DIVERGES", who + ": outcome differs from rank 0");
   }
   if(nfaults == 0 && ref.outcome != 0) sim::fail("REJECTED_VALID", "file " + fe.name + " without any fault was rejected: " + ref.family + ": " + shorten(ref.what));
-  if(flog.must_reject && ref.outcome == 0) sim::fail("ACCEPTED_INVALID", "file " + fe.name + " after " + ops + " was accepted although " + flog.why);
+  if(flog.must_reject && (ref.outcome == 0 || res[0].outcome == 0)) sim::fail("ACCEPTED_INVALID", "file " + fe.name + " after " + ops + " was accepted although " + flog.why);
   sim::probe(ref.outcome == 0 ? "world_accepted" : "world_rejected", 1);
   if(!bytes.empty() && std::find(bytes.begin(), bytes.end(), char(0)) != bytes.end()) sim::probe("text_with_nul_byte", 1);
   if(bytes.empty()) sim::probe("empty_file", 1);
